@@ -117,6 +117,7 @@ class KRun:
         self.handles: dict[int, Any] = {}  # T -> TaskHandle
         self.events: list[Any] = []
         self.final_exc: dict[int, tuple[BaseException, str]] = {}  # T -> (final exception, its code)
+        self.amb: dict[int, int] = {}  # T -> depth of cleanups running with an AnyIO cancellation in flight
         self.ev_waiters: list[list[int]] = []
         self.nF = 0
         self.natives: dict[int, int] = {}
@@ -344,8 +345,19 @@ class KRun:
                 await self.body(me, s[1])
             except GeneratorExit:  # abandoned coroutine being closed after the run: no cleanup
                 raise
-            except BaseException:
-                await self.body(me, s[2])
+            except BaseException as e:
+                # cleanup code runs while `e` is being handled: a CancelledError raised in it gets `e` as
+                # its __context__.  While that is an AnyIO cancellation, a *native* cancellation raised in
+                # the cleanup would be classified as AnyIO's own by the library's context-following
+                # heuristic (DESIGN section 4, scoping): such native requests are not generated
+                amb = isinstance(e, asyncio.CancelledError) and is_anyio_cancellation(e)
+                if amb:
+                    self.amb[me] = self.amb.get(me, 0) + 1
+                try:
+                    await self.body(me, s[2])
+                finally:
+                    if amb:
+                        self.amb[me] -= 1
                 raise
             else:
                 await self.body(me, s[2])
@@ -353,7 +365,7 @@ class KRun:
             ent = self.task_by_name.get(s[1])
             if ent and ent[0] in self.task_obj and ent[0] != me:
                 t = self.task_obj[ent[0]]
-                if not t.done():
+                if not t.done() and not self.amb.get(ent[0]):
                     self.emit(f"{me} ncancel {ent[0]}", "ok")
                     self.natives[ent[0]] = self.natives.get(ent[0], 0) + 1
                     self.hist("ncancel", ent[0])
